@@ -3,6 +3,9 @@ package harness
 import (
 	"time"
 
+	pb_local "github.com/buildbarn/bb-storage/pkg/proto/blobstore/local"
+	"google.golang.org/protobuf/proto"
+
 	"vsim/sim"
 
 	rt "verifsimrt"
@@ -124,7 +127,20 @@ func c03Profile(variant string) func(c *sim.RunCtx) {
 					pp.cfg.KeyFormat = 0
 				}
 			}
-			return setupOut{pp, &storeModel{cfg: pp.cfg, objs: pp.objs, byTag: map[int]*upload{}}, newMedia(pp.cfg)}
+			m := newMedia(pp.cfg)
+			if c.T.Plan.Chance(1, 3) {
+				// a temporary state file left behind by a crash of an earlier
+				// incarnation between creating and renaming it: a plausible state
+				// message of another life, or garbage
+				left, _ := proto.Marshal(&pb_local.PersistentState{OldestEpochId: 7, KeyLocationMapHashInitialization: 0x1234,
+					Blocks: []*pb_local.BlockState{{BlockLocation: &pb_local.BlockLocation{OffsetBytes: 0, SizeBytes: int64(pp.cfg.BlockSize())}, WriteOffsetBytes: 3, EpochHashSeeds: []uint64{11, 12}}}})
+				if c.T.Plan.Chance(1, 2) {
+					left = []byte("\xff\xfe garbage left by a crash")
+				}
+				m.dir.Preload("state.new", left)
+				c.Count("probe_leftover_temporary_state_file", 1)
+			}
+			return setupOut{pp, &storeModel{cfg: pp.cfg, objs: pp.objs, byTag: map[int]*upload{}}, m}
 		}
 		before := indexDiscardCount()
 		discards := func() bool { return indexDiscardCount() != before }
